@@ -137,6 +137,9 @@ var nets = []netInfo{
 //     standard network in the same way.
 var setupOnce sync.Once
 
+// nBuiltinNets: the networks chaincfg ships with come first in nets; setupProp appends caller-made ones.
+var nBuiltinNets = len(nets)
+
 func setupProp(prop string) (err error) {
 	setupOnce.Do(func() {
 		mk := func(name string, magic uint32, cash, slp string, pkh, sh, wif, hd byte) *chaincfg.Params {
@@ -151,10 +154,13 @@ func setupProp(prop string) (err error) {
 		case "C02":
 			add = []*chaincfg.Params{mk("custa", 0xa1a1a1a1, "bchcusta", "slpcusta", 0xa1, 0xa2, 0xa3, 0x0a),
 				mk("custb", 0xb2b2b2b2, "bchcustb", "slpcustb", 0xa2, 0xa1, 0xa4, 0x0b),
-				mk("custc", 0xc3c3c3c3, "bchcustc", "slpcustc", 0xb1, 0xb2, 0xb3, 0x0c),
+				mk("custc", 0xc3c3c3c3, "zcashy", "zslpy", 0xb1, 0xb2, 0xb3, 0x0c),
 				// its P2PKH byte is testnet's P2SH byte: registered after the library has been used, it turns
 				// every legacy string with that byte into a collision
 				mk("custd", 0xd6d6d6d6, "bchcustd", "slpcustd", 0xc4, 0xb4, 0xb5, 0x0f)}
+		case "C01":
+			// a caller-made network whose prefixes use the letters at the ends of the alphabet
+			add = []*chaincfg.Params{mk("zednet", 0xf7f7f7f7, "zcashy", "zslpy", 0xe1, 0xe2, 0xe3, 0x1a)}
 		case "C04", "C05", "C06", "C15":
 			// the second one has 0x00 as its WIF identifier: zero is a value, not "unset"
 			add = []*chaincfg.Params{mk("latenet", 0xd4d4d4d4, "bchlate", "slplate", 0xd1, 0xd2, 0xd3, 0x0d),
